@@ -208,14 +208,23 @@ func init() {
 						res.Add(Finding{Kind: "property", Check: "valid-reply", Line: op.Line(), Impl: ref, Expect: "ok"})
 						continue
 					}
-					for k := 0; k <= len(good); k++ {
+					hangs := 0
+					for k := 0; k <= len(good) && hangs < 2; k++ {
 						for _, ending := range []string{"eof", "reset", "timeout"} {
+							if hangs >= 2 { // two failing inputs per operation are enough; each costs a watchdog period
+								break
+							}
 							k := k
 							line, impl, _ := s.exchange(op, ending, true, func(w wireReq) [][]byte {
 								full := w.frame(w.unit, w.fc, taggedReply(w, 0x0a0b))
 								return randomChunks(r, full[:k])
 							})
 							local = append(local, [2]string{line, impl})
+							if r := field(impl, "r"); r == "hang" || strings.HasSuffix(impl, "then-hang") || strings.Contains(impl, " then-hang ") {
+								hangs++
+								res.Add(Finding{Kind: "property", Check: "call-hang", Line: line, Impl: impl, Expect: "the call returns",
+									Note: "after a cut-off exchange the client kept its lock: the next operation on it never returns"})
+							}
 							pos := "mid"
 							if k == 0 {
 								pos = "empty"
@@ -263,7 +272,16 @@ func init() {
 						}
 					}
 					// Close + Open: a fresh transport completes the next request normally
-					s.mc.Close()
+					if !s.hung {
+						closed := make(chan struct{})
+						go func(mc interface{ Close() error }) { mc.Close(); close(closed) }(s.mc)
+						select {
+						case <-closed:
+						case <-time.After(5 * time.Second):
+							res.Add(Finding{Kind: "property", Check: "call-hang", Line: kind + " " + op.Line() + ": every cut of its reply, then Close()", Impl: "Close() did not return within 5 s",
+								Expect: "Close returns", Note: "after a cut-off exchange the client could not be closed"})
+						}
+					}
 					s2, err := newSession(kind)
 					if err == nil {
 						s2.setEnc(s.e, s.w)
